@@ -30,7 +30,9 @@ ASSUMPTIONS = [
     "the ornament type may come back as the string or as a one-element list",
     "score positions are compared relative to the first written score note; measure numbers, clefs, the padding "
     "rest and ids of notes created by splitting at barlines are not compared",
-    "alter None == 0, key mode None == 'major'; order of simultaneous pedal events is not compared",
+    "alter None == 0, key mode None == 'major'; the order of simultaneous events of different pedals is not compared; several "
+    "events of ONE pedal (sustain or soft) on one tick come back in the order of the saved stream (the pedal state after that "
+    "time point is the last value), demanded where the saved list order agrees with the exact times (clause performance-pedal-order)",
     "sound_off (pedal semantics, C14), channel and track are not part of the statement and are not compared",
     "signature lines of the written file are required to carry the position (beat 1, offset 0, time in beats) of the "
     "bar start where the signature is written and the measure number used by the note lines of that bar",
@@ -354,6 +356,28 @@ def eval_case(case):
         res.fail("performance-pedal-equal", expected=sorted((k[0], list(k[1]), k[2], v) for k, v in exp_ctrl.items()),
                  observed=[(c["number"], c["time"], c["value"]) for c in pp.controls],
                  where="load_match performance", detail="sustain (64) and soft (67) events as (number, tick, value)")
+    else:
+        # several events of ONE pedal at one tick: the order of their values is part of the stream (the state of the
+        # pedal after that time point is the last value). Demanded only where the case description fixes it: all
+        # events of that pedal that can land on the tick have exactly this tick, and their order in the saved list
+        # does not contradict their exact times
+        for num in (64, 67):
+            evs = [(tuple(sorted(M.tick_candidates(t, eff_ppq, eff_mpq))), M.sec_of(t, eff_ppq, eff_mpq), val)
+                   for n_, t, val in ctrl if n_ == num]
+            got_seq = [(int(round(float(F(c["time"]).limit_denominator(10 ** 9) * 10 ** 6 * eff_ppq / eff_mpq))), c["value"])
+                       for c in pp.controls if c["number"] == num]
+            for T in sorted({cd[0] for cd, _, _ in evs if len(cd) == 1}):
+                grp = [(s_, v) for cd, s_, v in evs if cd == (T,)]
+                if len(grp) < 2 or any(T in cd and cd != (T,) for cd, _, _ in evs):
+                    continue
+                if any(a[0] > b[0] for a, b in zip(grp, grp[1:])):
+                    continue
+                exp_vals = [v for _, v in grp]
+                got_vals = [v for tk_, v in got_seq if tk_ == T]
+                if got_vals != exp_vals:
+                    res.fail("performance-pedal-order", expected=exp_vals, observed=got_vals, where="load_match performance",
+                             detail="values of the events of pedal %d at tick %d, in the order of the stream" % (num, T))
+                    break
 
     # -- score ------------------------------------------------------------------------------------
     if len(score.parts) != 1:
@@ -1508,6 +1532,90 @@ def gen_clock(full, all_streams=False):
         yield mk_case(sc, align=align, perf=perf, ctrl=st, defaults=True)
 
 
+PED_VALUES = [0, 64, 127]
+PED_TICKS = [7, 961]
+
+
+def ped_time_points():
+    """contents of one time point of a pedal: 1..3 distinct values of PED_VALUES in every order (15)"""
+    out = []
+    for k in (1, 2, 3):
+        out += [list(p) for p in itertools.permutations(PED_VALUES, k)]
+    return out
+
+
+def gen_pedal_order(full):
+    """several events of one pedal on ONE tick (a pedal pressed and released within a tick, a device that quantises):
+    streams of one or two time points (ticks 7 and 961), each holding 1..3 distinct values of {0, 64, 127} in every
+    order, at least one time point with several values (12 + 216 streams) x the stream on the sustain pedal / on the
+    soft pedal / on both (events interleaved) x the events of a time point at exactly the same time / at different
+    times inside the tick, in the order of the list (T-1/8, T+1/8 or T-1/4, T, T+1/4 ticks) x clock.
+    quick: all 228 streams at equal times with the first clock; the 12 one-point streams also at different times and with
+    a second clock; thorough: the full product over the 7 clocks"""
+    m = (4, 4)
+    sc = mk_score([(m, m, None)], [(0, 4), (4, 8)])
+    pts = ped_time_points()
+    streams = [[p] for p in pts if len(p) > 1] + [[a, b] for a in pts for b in pts if len(a) > 1 or len(b) > 1]
+    perf = [["n%d" % i, 60 + i, on, off, 1 + 63 * i] for i, (on, off) in enumerate([(0, 10), (12, 2000), (5, 970)])]
+    align = [["match", "s0", "n0", None], ["match", "s1", "n1", None], ["insertion", None, "n2", None]]
+    for ci, (ppq, mpq) in enumerate(CLOCKS if full else [CLOCKS[0], CLOCKS[2]]):
+        for st in streams:
+            if not full and ci > 0 and len(st) > 1:
+                continue
+            for near in (False, True):
+                if not full and near and len(st) > 1:
+                    continue
+                for mode in ("sustain", "soft", "both"):
+                    ctrl = []
+                    for T, vals in zip(PED_TICKS, st):
+                        for j, v in enumerate(vals):
+                            if near and len(vals) > 1:
+                                # exact seconds of tick T + (2j - (k-1))/8
+                                t = ["s", "%d/%d" % ((8 * T + 2 * j - (len(vals) - 1)) * mpq, 8 * 10 ** 6 * ppq)]
+                            else:
+                                t = T
+                            for num in {"sustain": (64,), "soft": (67,), "both": (64, 67)}[mode]:
+                                ctrl.append((num, t, v))
+                    yield mk_case(sc, align=align, perf=perf, ctrl=ctrl, ppq=ppq, mpq=mpq)
+
+
+LARGE_OFFSETS = [2 ** 22 + 1, 2 ** 23 + 5, 2 ** 24 + 1, 2 ** 25 + 3, 2 ** 26 + 1, 2 ** 27 + 7, 2 ** 28 + 1, 2 ** 30 + 1]
+
+
+def gen_clock_large(full):
+    """magnitude dimension of the space clock: the same small performances late in a long recording. Every time (notes and
+    pedals) of 4 time sets - tick grid (3 notes), tick grid (6 notes, 4 of them insertions), exact seconds off the grid
+    (thirds, sevenths), exact half ticks - shifted by an offset of LARGE_OFFSETS ticks (2**22+1 .. 2**30+1: 73 minutes to
+    13 days at 960 ticks/s; the tick column of PerformedPart.note_array is int32, so 2**31 is the limit of the library)
+    x 7 clocks x pedals {none, 3 events}; thorough adds the offsets 3*2**k+1"""
+    m = (4, 4)
+    sc = mk_score([(m, m, None)], [(0, 4), (4, 8)])
+    offsets = LARGE_OFFSETS + ([3 * 2 ** k + 1 for k in range(21, 29)] if full else [])
+    for O in offsets:
+        for ppq, mpq in CLOCKS:
+            def sh(x):
+                if isinstance(x, (list, tuple)):
+                    v = M.sec_of(x, ppq, mpq) + F(O * mpq, 10 ** 6 * ppq)
+                    return ["s", "%d/%d" % (v.numerator, v.denominator)]
+                return O + x
+
+            def half(k):
+                return ["s", "%d/%d" % ((2 * k + 1) * mpq, 2 * 10 ** 6 * ppq)]
+            timesets = [
+                [(0, 10), (12, 1000000), (5, 6)],
+                [(0, 10), (12, 1000000), (5, 6), (101, 333), (334, 777), (778, 1555)],
+                [(["s", "1/3"], ["s", "2/3"]), (["s", "1/1"], ["s", "7/3"]), (["s", "10/7"], ["s", "1001/700"])],
+                [(half(0), half(1)), (half(10), half(11)), (half(3), half(4))],
+            ]
+            for ts in timesets:
+                perf = [["n%d" % i, 60 + i, sh(on), sh(off), 1 + 20 * i] for i, (on, off) in enumerate(ts)]
+                align = [["match", "s0", "n0", None], ["match", "s1", "n1", None]] + \
+                        [["insertion", None, "n%d" % i, None] for i in range(2, len(ts))]
+                for ped in ([], [(64, 3, 127), (67, ["s", "1/3"], 5), (64, 2001, 0)]):
+                    ctrl = [(num, sh(t), v) for num, t, v in ped]
+                    yield mk_case(sc, align=align, perf=perf, ctrl=ctrl, ppq=ppq, mpq=mpq)
+
+
 SRC_CLOCKS = [(480, 500000), (480, 250000), (480, 600000), (960, 500000), (384, 600000)]
 REQ_CLOCKS = [(480, 500000), (480, 250000), (480, 333333), (960, 500000), (384, 600000), None]  # None = exporter defaults
 RESAVE_TIMES = [[(0, 10), (5, 6), (12, 1000)], [(480, 960), (961, 1441), (1001, 1999)]]
@@ -1802,6 +1910,18 @@ def spaces(tier, seed):
                     "7 (ppq,mpq) pairs x 3 time sets (grid, exact seconds off the grid, exact half ticks) x every pedal stream "
                     "of length 0-3 over 10 events (numbers 64/67/66, on and off the tick grid) for the grid set, the first 31 "
                     "streams otherwise; exporter defaults"))
+    sp.append(Space("pedal-order", lambda: gen_pedal_order(thorough), True,
+                    "several events of one pedal on one tick: streams of 1-2 time points (ticks 7, 961), each with 1-3 distinct "
+                    "values of {0,64,127} in every order, >= 1 time point with several values (228 streams) x {sustain, soft, "
+                    "both interleaved} x events of a time point at equal times / at increasing times inside the tick x clock; "
+                    + ("full product over 7 clocks" if thorough else
+                       "all streams at equal times with 480/500000; the 12 one-point streams also at different times and "
+                       "with 384/600000")))
+    sp.append(Space("clock-large", lambda: gen_clock_large(thorough), True,
+                    "magnitude dimension of clock: 4 time sets (grid 3 notes, grid 6 notes, exact thirds/sevenths of a second, "
+                    "exact half ticks) with every note and pedal time shifted by %d offsets (2**22+1, 2**23+5, 2**24+1, 2**25+3, "
+                    "2**26+1, 2**27+7, 2**28+1, 2**30+1%s ticks; below 2**31, the int32 tick column of the performance note "
+                    "array) x 7 clocks x pedals {none, 3 events}" % ((16, "; 3*2**k+1 for k=21..28") if thorough else (8, ""))))
     if thorough:
         sp.append(Space("clock-all", lambda: gen_clock(True, all_streams=True), True,
                         "as clock, but every pedal stream (length 0-3 over 10 events) for all 3 time sets and all 7 clocks"))
